@@ -389,3 +389,91 @@ def applicable(scn):
   if feats.get("con") in ("c3bb", "c6bb") and _bb_pair(scn["parents"]) is None:
     return False
   return True
+
+
+# ------------------------------------------------------------------------------------------- dedicated solver scenes
+
+DEDICATED = ("sphere_slide", "sphere_rest", "capsule6", "stack2", "stack3", "chain_lim", "pile_mixed")
+
+
+def dedicated(name, variant=0):
+  """(xml, qpos, qvel, make_data kwargs) of a hand-built contact / limit scene for the solver properties."""
+  v = variant % 4
+  condim = (3, 4, 6, 3)[v]
+  fr = ("0.8 0.02 0.01", "0.5 0.03 0.02", "1.1 0.01 0.005", "0.3 0.05 0.01")[v]
+  tilt = ("1 0 0 0", "0.9961947 0.0871557 0 0", "0.9961947 0 0.0871557 0", "0.9914449 0.0922959 0.0922959 0")[v]
+  plane = f'<geom name="floor" type="plane" size="3 3 .1" quat="{tilt}" condim="{condim}" friction="{fr}"/>'
+  R = _quat_to_mat([float(x) for x in tilt.split()])
+  n = R[:, 2]
+  kw = dict(njmax=256, nconmax=64)
+
+  def above(h, lateral=(0.0, 0.0)):
+    p = n * h + R[:, 0] * lateral[0] + R[:, 1] * lateral[1]
+    return [float(x) for x in p]
+
+  if name in ("sphere_slide", "sphere_rest"):
+    xml = (
+      f'<mujoco><worldbody>{plane}<body name="s" pos="0 0 0"><freejoint/>'
+      f'<geom type="sphere" size="0.1" condim="{condim}" friction="{fr}" mass="1.3"/></body></worldbody></mujoco>'
+    )
+    qpos = above(0.097) + [1, 0, 0, 0]
+    qvel = [0.9, -0.4, -0.2, 0.5, 2.0, -1.0] if name == "sphere_slide" else [0.0] * 6
+    return xml, qpos, qvel, kw
+  if name == "capsule6":
+    xml = (
+      f'<mujoco><worldbody>{plane}<body name="c"><freejoint/>'
+      f'<geom type="capsule" size="0.05 0.2" condim="6" friction="{fr}" mass="0.9"/></body>'
+      f'<body name="p" pos="0.5 0.5 0.5"><joint name="h" type="hinge" axis="0 1 0"/><geom type="sphere" size="0.05" pos="0.2 0 0" contype="0" conaffinity="0"/></body>'
+      f'</worldbody><equality><joint joint1="h" polycoef="0.3 0 0 0 0"/></equality></mujoco>'
+    )
+    # capsule lying on the plane: its axis (local z) along the plane's x axis
+    axis = R[:, 0]
+    q = _quat_z_to(axis)
+    qpos = above(0.047) + list(q) + [0.0]
+    qvel = [0.3, 0.6, -0.1, 1.0, -0.5, 2.0, 0.7]
+    return xml, qpos, qvel, kw
+  if name in ("stack2", "stack3"):
+    nb = 2 if name == "stack2" else 3
+    bodies, qpos, qvel = "", [], []
+    h = 0.0
+    for i in range(nb):
+      hz = 0.05 + 0.01 * i
+      h += hz - (0.002 if i == 0 else 0.003)
+      bodies += (
+        f'<body name="box{i}"><freejoint/><geom type="box" size="{0.12 - 0.02 * i} {0.1 - 0.015 * i} {hz}" condim="{condim}" '
+        f'friction="{fr}" mass="{1.0 + 0.5 * i}"/></body>'
+      )
+      qpos += above(h, (0.01 * i, -0.015 * i)) + [float(x) for x in tilt.split()]
+      qvel += [0.2 * (i + 1), -0.1 * i, -0.05, 0.0, 0.1 * i, 0.3 * (i - 1)]
+      h += hz
+    xml = f"<mujoco><worldbody>{plane}{bodies}</worldbody></mujoco>"
+    return xml, qpos, qvel, kw
+  if name == "chain_lim":
+    xml = (
+      '<mujoco><compiler angle="radian"/><worldbody><body name="a" pos="0 0 1">'
+      '<joint name="j1" type="hinge" axis="0 1 0" limited="true" range="-0.3 0.3" frictionloss="0.2"/><geom type="capsule" fromto="0 0 0 0.3 0 0" size="0.03"/>'
+      '<body name="b" pos="0.3 0 0"><joint name="j2" type="hinge" axis="0.6 0.8 0" limited="true" range="-0.2 0.5" margin="0.05" frictionloss="0.1"/>'
+      '<geom type="capsule" fromto="0 0 0 0.3 0 0" size="0.03"/>'
+      '<body name="c" pos="0.3 0 0"><joint name="j3" type="ball" limited="true" range="0 0.4" frictionloss="0.05"/><joint name="j4" type="slide" axis="1 0 0" limited="true" range="-0.05 0.05"/>'
+      '<geom type="capsule" fromto="0 0 0 0.25 0 0" size="0.03"/><site name="tip" pos="0.25 0 0"/></body></body></body>'
+      '<site name="anchor" pos="0.2 0.3 1.2"/></worldbody>'
+      '<tendon><spatial name="t" limited="true" range="0 0.5" frictionloss="0.3"><site site="anchor"/><site site="tip"/></spatial>'
+      '<fixed name="tf" limited="true" range="-0.1 0.1"><joint joint="j1" coef="1"/><joint joint="j2" coef="-0.5"/></fixed></tendon></mujoco>'
+    )
+    s = (1.0, -1.0, 0.6, 1.3)[v]
+    qpos = [0.45 * s, 0.6 * s, 0.9238795, 0.2209424 * s, 0.2209424, 0.2209424, 0.08 * s]
+    qvel = [0.5 * s, -1.0, 0.3, -0.4 * s, 0.2, 0.6]
+    return xml, qpos, qvel, dict(njmax=64)
+  if name == "pile_mixed":
+    xml = (
+      f'<mujoco><worldbody>{plane}'
+      f'<body name="s1"><freejoint/><geom type="sphere" size="0.08" condim="1" mass="0.7"/></body>'
+      f'<body name="s2"><freejoint/><geom type="sphere" size="0.07" condim="{condim}" friction="{fr}" mass="0.5"/></body>'
+      f'<body name="c1"><freejoint/><geom type="capsule" size="0.04 0.1" condim="4" friction="{fr}" mass="0.6"/></body>'
+      f'<body name="m" pos="0.4 0 0.3"><joint name="sl" type="slide" axis="0 0 1" frictionloss="0.4"/><geom type="sphere" size="0.05" contype="0" conaffinity="0"/></body>'
+      f"</worldbody><equality><connect body1=\"s2\" body2=\"c1\" anchor=\"0.05 0 0.02\"/></equality></mujoco>"
+    )
+    qpos = above(0.077, (0.0, 0.0)) + [1, 0, 0, 0] + above(0.2, (0.05, 0.02)) + [1, 0, 0, 0] + above(0.037, (0.3, 0.1)) + list(_quat_z_to(R[:, 1])) + [0.0]
+    qvel = [0.1, 0.2, -0.3, 0, 0, 0] + [-0.2, 0.1, -0.5, 0.3, 0.2, 0.1] + [0.4, 0.0, -0.1, 0.5, 0.0, 1.0] + [0.8]
+    return xml, qpos, qvel, kw
+  raise KeyError(name)
